@@ -291,16 +291,33 @@ func throttleScenario(concurrent bool) *explore.Scenario {
 			return nil, nil
 		})
 		n := 3
+		// the rate holds for every message, whatever the state of its context: live, already cancelled, or
+		// with a deadline (Timeout around the Throttle) shorter than the tick period
+		shapes := []string{"live", "cancelled", "short-timeout"}
+		send := func(shape int) {
+			m := hx.Msg("m")
+			f := h
+			switch shapes[shape] {
+			case "cancelled":
+				ctx, cancel := context.WithCancel(context.Background())
+				cancel()
+				m.SetContext(ctx)
+			case "short-timeout":
+				f = middleware.Timeout(3 * time.Millisecond)(h)
+			}
+			f(m)
+		}
 		if concurrent {
+			shape := vs.Choose(len(shapes), 0, "context of the messages")
 			var wg vs.WaitGroup
 			for i := 0; i < n; i++ {
 				wg.Add(1)
-				go func() { defer wg.Done(); h(hx.Msg("m")) }()
+				go func() { defer wg.Done(); send(shape) }()
 			}
 			wg.Wait()
 		} else {
 			for i := 0; i < n; i++ {
-				h(hx.Msg("m"))
+				send(vs.Choose(len(shapes), 0, "context of the message"))
 			}
 		}
 		for k, s := range starts {
